@@ -73,4 +73,155 @@ theorem C13_no_misattribution (tc : TestCase) (outs : List OutEntry) (c c' : Ctx
         exact List.mem_of_getElem? ho
       · cases h
 
+/-- a driver that answers its `k`-th call with `sc k`, whatever it is handed (a response history) -/
+def scriptDrv (sc : Nat → DrvResp) : Driver Nat :=
+  { rw := fun k _ => (k + 1, sc k), wo := Driver.defaultWo (fun k _ => (k + 1, sc k)) }
+
+/-- one `next()` against a response history depends only on the response to the call it makes:
+two histories that agree on call number `k` give the same step from call counter `k` -/
+theorem next_script_congr (tc : TestCase) (sc₁ sc₂ : Nat → DrvResp) (fuel : Nat) (s : RowIt) (k : Nat)
+    (h : sc₁ k = sc₂ k) :
+    RowIt.next tc (scriptDrv sc₁) fuel s k = RowIt.next tc (scriptDrv sc₂) fuel s k := by
+  unfold RowIt.next
+  cases getRow tc fuel s with
+  | err e => rfl
+  | panic m => rfl
+  | fuel => rfl
+  | none s' => rfl
+  | row r s' =>
+    simp only [scriptDrv, Driver.defaultWo, h]
+
+/-- when `get_row` hands out a row, `next()` makes exactly one call: the counter advances by one,
+whatever the outcome -/
+theorem next_script_row (tc : TestCase) (sc : Nat → DrvResp) (fuel : Nat) (s s' : RowIt) (k : Nat) (r : EvRow)
+    (hg : getRow tc fuel s = .row r s') :
+    match RowIt.next tc (scriptDrv sc) fuel s k with
+    | .item _ _ k' _ => k' = k + 1
+    | .panic _ calls => calls.length = 1
+    | .none _ _ => False
+    | .fuel => False := by
+  unfold RowIt.next
+  simp only [hg, scriptDrv, Driver.defaultWo]
+  by_cases hu : r.upd = true
+  · simp only [hu, if_true]
+    cases hsc : sc k with
+    | fail e => simp
+    | ok outs =>
+      simp only
+      cases hx : extractOutputs tc s'.outIdx s'.numOut outs (s'.ctx.setOutputs (outsOf outs)) with
+      | mk res c2 => cases res <;> simp
+  · simp only [hu, if_false]
+    cases hsc : sc k with
+    | fail e => simp
+    | ok outs => simp
+
+/-- when `get_row` does not hand out a row, `next()` does not consult the driver at all -/
+theorem next_script_norow (tc : TestCase) (sc₁ sc₂ : Nat → DrvResp) (fuel : Nat) (s : RowIt) (k : Nat)
+    (hg : ∀ r s', getRow tc fuel s ≠ .row r s') :
+    RowIt.next tc (scriptDrv sc₁) fuel s k = RowIt.next tc (scriptDrv sc₂) fuel s k ∧
+    match RowIt.next tc (scriptDrv sc₁) fuel s k with
+    | .item _ _ k' _ => k' = k
+    | .panic _ calls => calls.length = 0
+    | .none _ k' => k' = k
+    | .fuel => True := by
+  unfold RowIt.next
+  cases h : getRow tc fuel s with
+  | err e => simp
+  | panic m => simp
+  | fuel => simp
+  | none s' => simp
+  | row r s' => exact absurd h (hg r s')
+
+/-- the items of the first `n` calls of `next()` (stopping at the first error item or the end), and
+the number of driver calls made by then -/
+def runS (tc : TestCase) (sc : Nat → DrvResp) (fuel : Nat) : Nat → RowIt → Nat → List Item × Nat
+  | 0, _, k => ([], k)
+  | n+1, s, k =>
+    match RowIt.next tc (scriptDrv sc) fuel s k with
+    | .item (.row r) s' k' _ => (.row r :: (runS tc sc fuel n s' k').1, (runS tc sc fuel n s' k').2)
+    | .item (.err e) _ k' _ => ([.err e], k')
+    | .none _ k' => ([], k')
+    | .panic _ calls => ([], k + calls.length)
+    | .fuel => ([], k)
+
+theorem runS_counter_mono (tc : TestCase) (sc : Nat → DrvResp) (fuel : Nat) :
+    ∀ (n : Nat) (s : RowIt) (k : Nat), k ≤ (runS tc sc fuel n s k).2
+  | 0, s, k => by simp [runS]
+  | n+1, s, k => by
+    simp only [runS]
+    by_cases hg : ∃ r s', getRow tc fuel s = .row r s'
+    · obtain ⟨r, s', hg⟩ := hg
+      have hr := next_script_row tc sc fuel s s' k r hg
+      cases hx : RowIt.next tc (scriptDrv sc) fuel s k with
+      | panic m c => simp
+      | fuel => simp
+      | none s2 k' => rw [hx] at hr; exact hr.elim
+      | item i s2 k' c =>
+        rw [hx] at hr
+        cases i with
+        | err e => simp; omega
+        | row r2 =>
+          simp only
+          have := runS_counter_mono tc sc fuel n s2 k'
+          omega
+    · have hg' : ∀ r s', getRow tc fuel s ≠ .row r s' := fun r s' h => hg ⟨r, s', h⟩
+      have hr := (next_script_norow tc sc sc fuel s k hg').2
+      cases hx : RowIt.next tc (scriptDrv sc) fuel s k with
+      | panic m c => simp
+      | fuel => simp
+      | none s2 k' => rw [hx] at hr; simp; omega
+      | item i s2 k' c =>
+        rw [hx] at hr
+        cases i with
+        | err e => simp; omega
+        | row r2 =>
+          simp only
+          have := runS_counter_mono tc sc fuel n s2 k'
+          omega
+
+/-- **Prefix determinacy**: two response histories that agree on their first `m` responses give
+identical runs as long as no more than `m` calls have been made — every item before the one that
+makes call `m + 1` is the same, in particular all rows before a fault equal the fault-free run. -/
+theorem C13_prefix_determinacy (tc : TestCase) (sc₁ sc₂ : Nat → DrvResp) (fuel m : Nat)
+    (hag : ∀ j, j < m → sc₁ j = sc₂ j) :
+    ∀ (n : Nat) (s : RowIt) (k : Nat), (runS tc sc₁ fuel n s k).2 ≤ m →
+      runS tc sc₁ fuel n s k = runS tc sc₂ fuel n s k
+  | 0, s, k, _ => by simp [runS]
+  | n+1, s, k, hle => by
+    -- in either case the two steps coincide
+    have hcong : RowIt.next tc (scriptDrv sc₁) fuel s k = RowIt.next tc (scriptDrv sc₂) fuel s k := by
+      by_cases hg : ∃ r s', getRow tc fuel s = .row r s'
+      · obtain ⟨r, s', hg⟩ := hg
+        -- a call is made: its number is below `m`
+        have hr := next_script_row tc sc₁ fuel s s' k r hg
+        have hk : k < m := by
+          simp only [runS] at hle
+          cases hx : RowIt.next tc (scriptDrv sc₁) fuel s k with
+          | panic m' c => rw [hx] at hr hle; simp only at hr hle; omega
+          | fuel => rw [hx] at hr; exact hr.elim
+          | none s2 k' => rw [hx] at hr; exact hr.elim
+          | item i s2 k' c =>
+            rw [hx] at hr hle
+            cases i with
+            | err e => simp only at hr hle; omega
+            | row r2 =>
+              simp only at hr hle
+              have := runS_counter_mono tc sc₁ fuel n s2 k'
+              omega
+        exact next_script_congr tc sc₁ sc₂ fuel s k (hag k hk)
+      · exact (next_script_norow tc sc₁ sc₂ fuel s k (fun r s' h => hg ⟨r, s', h⟩)).1
+    simp only [runS] at hle ⊢
+    rw [← hcong]
+    cases hx : RowIt.next tc (scriptDrv sc₁) fuel s k with
+    | panic m' c => rfl
+    | fuel => rfl
+    | none s' k' => rfl
+    | item i s' k' c =>
+      cases i with
+      | err e => rfl
+      | row r =>
+        simp only [hx] at hle
+        simp only
+        rw [C13_prefix_determinacy tc sc₁ sc₂ fuel m hag n s' k' hle]
+
 end Dtr
